@@ -209,7 +209,13 @@ StringDictionaryHTFC::StringDictionaryHTFC(IteratorDictString *it,
 
                   // The next string has fully read!
                   if (symbol == 0) {
-                    if ((nextst % bucketsize) == 0) {
+                    if (nextst == elements) {
+                      // It was the last string: only zeroes follow it
+                      offset = offset % 8;
+                      codeSubstr = (codeSubstr << (TABLEBITSO - ptrSubstr));
+                      ptrSubstr = TABLEBITSO;
+                      break;
+                    } else if ((nextst % bucketsize) == 0) {
                       if (((ptrSubstr + (8 - offset)) > TABLEBITSO)) {
                         offset = offset % 8;
 
